@@ -121,12 +121,13 @@ def case_script(ctx, case):
     log, tlog = [], []
     k = rng.randint(1, 8)
     wins = []
+    wid_pool = reps.odd_ids(rng, 'w', k, 0.3)
     for j in range(k):
-        start = rng.randint(-6, 12)
+        start = rng.randint(-6, 12) if rng.random() < 0.93 else -(2 ** 53) - rng.randint(0, 9)        # (a window that opened 2^53 timesteps ago)
         freq = rng.randint(1, 7)
         endk = rng.random()
         end = sys.maxsize if endk < 0.3 else start + rng.randint(-3, 15)
-        wins.append({'id': reps.as_str(rng, f'w{j}', allow_enum=False), 'start': start, 'end': end, 'freq': freq, 'default_end': endk < 0.3,
+        wins.append({'id': reps.as_str(rng, wid_pool[j], allow_enum=False), 'start': start, 'end': end, 'freq': freq, 'default_end': endk < 0.3,
                      'prio': rng.randint(-2, 2)})
     objs, tobjs = {}, {}
     for w in wins:
